@@ -222,10 +222,16 @@ class _AttrBase(Prop):
             items = [it for it in items if it[1]["k"] != "bad"]
             gens.append({"kind": "cons", "items": items, "choice": rnd.getrandbits(16),
                          "kids": rnd.randint(0, 4)})
+        # the object-history machine (spec/ObjOps.tla): attributes change only through their own tag
+        from .. import objhist
+        gens += objhist.gens(rnd, 150 if tier == "quick" else 3000, 15)
         return gens
 
     def execute(self, g):
         H = _lib()
+        if g["kind"] == "objhist":
+            from .. import objhist
+            return objhist.execute(g, H)
         if g["kind"] == "hist":
             obs, toks, closed, _ = run_hist(g["hist"], H, g.get("choice", 0))
             rec = {"k": "hist", "hist": g["hist"], "obs": obs, "tok": toks, "gen": g}
